@@ -70,6 +70,7 @@ func replayVfp(line []byte, a *Acc) {
 		one := func(sig, detail string) {
 			a.Mis(sig, detail, vfpLine{F: "vfp", M: l.M, Cs: []vfpCase{c}})
 		}
+		c.P = subst1(c.P) // placeholders of the specification's alphabet (a non-ASCII rune in a key)
 		var got []interface{}
 		var err error
 		if p := guard(func() { got, err = mv.ValuesForPath(c.P) }); p != "" {
